@@ -154,8 +154,9 @@ func (a *Analysis) CheckC01(rep *Report) {
 				rep.Ob("M2-dynamic-part", key, fe.Kind == fd.Kind && (fe.Table == "" || (fe.Table == fd.Table && fe.Key == fd.Key)), fpos,
 					fmt.Sprintf("encoder materialises from %s by %s, decoder from %s by %s", fe.Table, fe.Key, fd.Table, fd.Key))
 			}
-			rep.Ob("M5-lossless-encode", key, len(allValueOps(fe)) == 0, fpos, "value transformed while encoding: "+strings.Join(allValueOps(fe), "; "))
-			rep.Ob("M5-lossless-decode", key, len(allValueOps(fd)) == 0, a.P.Pos(fd.Pos), "value transformed while decoding: "+strings.Join(allValueOps(fd), "; "))
+			eops, dops := opsOnAllPaths(tl.EncAll, i), opsOnAllPaths(tl.R.Dec, i)
+			rep.Ob("M5-lossless-encode", key, len(eops) == 0, fpos, "value transformed while encoding: "+strings.Join(eops, "; "))
+			rep.Ob("M5-lossless-decode", key, len(dops) == 0, a.P.Pos(fd.Pos), "value transformed while decoding: "+strings.Join(dops, "; "))
 		}
 		if len(rep.Samples) < 4 {
 			rep.Sample(map[string]interface{}{"type": ct.Name, "encode": enc.WireCanon(), "decode": dec.WireCanon(), "body_nil_arms_not_compared": len(tl.EncNil)})
@@ -448,6 +449,14 @@ func (a *Analysis) CheckC03(rep *Report, tier string) {
 	rep.Trusted = append(trustedBase(), "declared order per unit (the property statement): sse, szse, risk = BE; bjse, sample = LE")
 	rep.Exhaustive = true
 	reach := a.frameReachable()
+	if os.Getenv("FPCHECK_DEBUG") != "" {
+		var rs []string
+		for k := range reach {
+			rs = append(rs, k)
+		}
+		sort.Strings(rs)
+		fmt.Println("reachable:", len(rs), rs)
+	}
 	natoms := 0
 	for _, ct := range a.U.Types {
 		tl := a.Layouts(ct)
@@ -457,8 +466,9 @@ func (a *Analysis) CheckC03(rep *Report, tier string) {
 		}
 		want := declaredOrder[ct.Pkg]
 		uniform := ""
-		if !reach[ct.Name] {
-			want = "" // unit of its own: must be internally uniform
+		if !reach[ct.Name] && !a.generatedFile(ct) {
+			// hand-written codec outside every frame and table of its package: a unit of its own, which must be internally uniform
+			want = ""
 		}
 		checkLayout := func(dir string, l *Layout) {
 			for _, f := range l.Fields {
@@ -781,4 +791,43 @@ func normLoopVars(s string) string {
 		i++
 	}
 	return b.String()
+}
+
+// opsOnAllPaths: value transformations of field i on any of the given success paths (not only the primary one).
+func opsOnAllPaths(pls []*PathLayout, i int) []string {
+	seen := map[string]bool{}
+	var out []string
+	for _, pl := range pls {
+		if i < len(pl.Layout.Fields) {
+			for _, op := range allValueOps(pl.Layout.Fields[i]) {
+				if !seen[op] {
+					seen[op] = true
+					out = append(out, op)
+				}
+			}
+		}
+	}
+	return out
+}
+
+// generatedFile: the type's Encode method lives in a file produced by the protocol generator (header comment
+// "Code generated … DO NOT EDIT."), i.e. it is a message of its package's protocol.
+func (a *Analysis) generatedFile(ct *CodecType) bool {
+	pos := a.P.Fset.Position(ct.Encode.Pos())
+	for _, pk := range a.P.Pkgs {
+		for _, f := range pk.Syntax {
+			if a.P.Fset.Position(f.Pos()).Filename != pos.Filename {
+				continue
+			}
+			for _, cg := range f.Comments {
+				if cg.Pos() > f.Package {
+					break
+				}
+				if strings.Contains(cg.Text(), "Code generated") && strings.Contains(cg.Text(), "DO NOT EDIT") {
+					return true
+				}
+			}
+		}
+	}
+	return false
 }
